@@ -605,7 +605,11 @@ class NetworkXPropertyGraph(ABCPropertyGraph, NetworkXMixin):
         int_id = self.storage.add_blank_node_to_graph(self.graph_id, Class=label,
                                                       NodeID=node_id)
         if props is not None:
-            self.storage.get_graph(self.graph_id).nodes[int_id].update(props)
+            # properties copied from another node carry that node's identity (get_node_properties()
+            # returns GraphID and NodeID with the rest): the arguments of this call say what the new node is
+            identity = (ABCPropertyGraph.GRAPH_ID, ABCPropertyGraph.NODE_ID, self.NETWORKX_LABEL)
+            self.storage.get_graph(self.graph_id).nodes[int_id].update(
+                {k: v for k, v in props.items() if k not in identity})
 
     def add_link(self, *, node_a: str, rel: str, node_b: str, props: Dict[str, Any] = None) -> None:
         """
